@@ -11,7 +11,7 @@ use curve25519_dalek::verif::{Usc, SC_LIMBS, SC_LIMB_BITS};
 use rayon::prelude::*;
 use serde_json::json;
 use sha2::Sha512;
-use stateright::{Checker, Model, Property};
+use stateright::{Model, Property};
 use std::sync::atomic::Ordering;
 
 fn canon_check(got: &Scalar, want: &Zl) -> Result<(), String> {
@@ -464,14 +464,7 @@ pub fn run(ctx: &Ctx) {
     ctx.bound("machine_pool", json!(pool.len()));
     ctx.bound("machine_inits", json!(inits.len()));
     let m = Machine { inits, pool, max_depth: depth, ctx: ctx as *const Ctx as usize };
-    let checker = m.checker().threads(rayon::current_num_threads()).spawn_bfs().join();
-    ctx.states.fetch_add(checker.unique_state_count() as u64, Ordering::Relaxed);
-    ctx.nontriv(checker.unique_state_count() as u64);
-    ctx.count("machine_generated_states", checker.state_count() as u64);
-    if let Some(path) = checker.discovery("exact mod l") {
-        let last = path.last_state().clone();
-        let acts: Vec<String> = path.into_actions().iter().map(|a| format!("{:?}", a)).collect();
-        ctx.violation("sc.machine", last.bad.as_deref().unwrap_or("?"), json!({"kind": "machine", "actions": acts}));
-    }
+    let o = crate::bfs::explore(&m, depth as usize, |s| s.bad.clone(), 8);
+    crate::bfs::finish(ctx, "sc.machine", &o, depth as usize);
     ctx.sample_tag("machine", json!({"depth": depth, "note": "BFS over scalar values; each transition = one real operator call compared with Z/lZ"}));
 }
